@@ -540,6 +540,17 @@ class real_trim_end:
             yield "finalized-canvas-unchanged", _unchanged(old, s)
 
 
+def _is_pad(cv, width, height):
+    """cv is the cview (0, 0, width, height, None, blank_canvas) -- padding shows the whole of the size-less blank canvas."""
+    if not (isinstance(cv, tuple) and len(cv) == 6):
+        return False
+    return both(cv[0] == 0, cv[1] == 0, cv[2] == width, cv[3] == height, V.opt_isnone(cv[4]), cv[5] is _canvas.blank_canvas or eq(cv[5], _canvas.blank_canvas))
+
+
+def _built_by_the_call(cv_list):
+    return getattr(cv_list, "entry_seq", None) is None  # cview lists of the tail get `entry_seq` when they are spelled out
+
+
 # ---- pad_trim_left_right / pad_trim_top_bottom over the real fields: exactly the clauses of the assumed cc_ptlr / cc_pttb
 # (cols / rows, cursor moves with its cell or goes with it; `window` is a ghost of the protocol model) + the frame of
 # the protocol model (`modifies`) + operands unchanged + a finalized canvas refuses
@@ -561,6 +572,15 @@ class real_ptlr:
         yield "not-finalized", is_none(old._widget_info)
         yield from _protocol_clauses(PW.cc_ptlr, old, s, a, result)
         yield "rows-kept", rows_of(s.shards) == rows_of(old.shards)
+        # what is added is padding that runs down the whole canvas, put around the first shard's own cviews
+        if cur().branch(either(a.left > 0, a.right > 0)):
+            head = _parts(s.shards)[0][0][1]
+            n = Q.seq_len(head)
+            if cur().branch(a.left > 0):
+                yield "left-padding-cview-spans-the-canvas", _is_pad(Q.seq_get(head, 0), a.left, rows_of(old.shards))
+            if cur().branch(a.right > 0):
+                yield "right-padding-cview-spans-the-canvas", _is_pad(Q.seq_get(head, n - 1), a.right, rows_of(old.shards))
+            yield "nothing-else-is-added", cviews_width(head) - ite(a.left > 0, a.left, 0) - ite(a.right > 0, a.right, 0) == cols_of(old.shards, True) + imin(a.left, 0) + imin(a.right, 0)
         yield "pop-up-moves-with-the-content", popup_moved(old, s, a.left, 0)
         yield "stays-unfinalized", is_none(s._widget_info)
         yield from operand_clauses(s)
@@ -592,6 +612,12 @@ class real_pttb:
         # trim keeps no row and nothing is padded back: a canvas without shards has no width
         none_left = both(either(a.top < 0, a.bottom < 0), rows_of(s.shards) == 0)
         yield "cols-kept-unless-no-row-is-left", cols_of(s.shards) == ite(none_left, 0, cols_of(old.shards, True))
+        # the shards the call adds are padding as wide as the canvas was (also when nothing of it is left)
+        pre, _rest, post = _parts(s.shards)
+        added = [(r, cv) for r, cv in pre + post if _built_by_the_call(cv)]
+        yield "adds-exactly-the-padding-shards", len(added) == (1 if cur().branch(a.top > 0) else 0) + (1 if cur().branch(a.bottom > 0) else 0)
+        for r, cv in added:
+            yield "padding-shard-is-as-wide-as-the-canvas", both(Q.seq_len(cv) == 1, _is_pad(Q.seq_get(cv, 0), cols_of(old.shards, True), r))
         yield "pop-up-moves-with-the-content", popup_moved(old, s, 0, a.top)
         yield "stays-unfinalized", is_none(s._widget_info)
         yield from operand_clauses(s)
